@@ -451,3 +451,41 @@ func Emit(v structform.Visitor, e Ev, byRef bool) error {
 	}
 	return fmt.Errorf("simkit: unknown event kind %d", e.K)
 }
+
+// Arena is a caller-owned buffer that is reused for document after document:
+// every string passed by reference is a view into it, laid out one after the
+// other, and Rewind starts overwriting from the beginning - what a parser's
+// read buffer, or a caller reading records into one []byte, looks like to the
+// visitor.
+type Arena struct {
+	buf []byte
+	off int
+}
+
+func NewArena(n int) *Arena { return &Arena{buf: make([]byte, n)} }
+
+// Ref copies s into the arena and returns the view (capacity clamped).
+func (a *Arena) Ref(s string) []byte {
+	if a.off+len(s) > len(a.buf) {
+		return []byte(s)
+	}
+	b := a.buf[a.off : a.off+len(s) : a.off+len(s)]
+	copy(b, s)
+	a.off += len(s)
+	return b
+}
+
+func (a *Arena) Rewind() { a.off = 0 }
+
+// EmitArena is Emit with keys and strings passed by reference into a.
+func EmitArena(v structform.Visitor, e Ev, a *Arena) error {
+	if r, ok := v.(structform.StringRefVisitor); ok {
+		switch e.K {
+		case KKey:
+			return r.OnKeyRef(a.Ref(e.S))
+		case KStr:
+			return r.OnStringRef(a.Ref(e.S))
+		}
+	}
+	return Emit(v, e, false)
+}
